@@ -59,8 +59,13 @@ pub const STORE_PROPS: &[PropInfo] = &[
         rule: "one case = one sequence of appends (payload sizes from empty to one block, all record kinds) interleaved with force / close+reopen / truncate / reads with read-ahead 1-6, checked against a vector model after every read, then a crash at EVERY prefix of the recorded file mutations (reopen + read back); non-trivial = the log grew beyond its first block or was truncated or reopened, and at least one non-empty read was compared; distinct = distinct fingerprints of (operation log, I/O sequence)" },
 ];
 
+pub const WIRE_PROPS: &[PropInfo] = &[
+    PropInfo { id: "C20", engine: Engine::Wire, level: "exploration", quick_runs: 6000, thorough_runs: 400000, watchdog_s: 30,
+        rule: "one case = 1-6 stream scenarios over a simulated byte pipe: round trips of 1-4 generated Request/Response values under fragmentation, short writes and EINTR; frames truncated at an arbitrary byte then EOF; random / plausible-header garbage; valid frames with header-biased byte changes; non-trivial = at least one round trip ran under fragmentation or EINTR and at least one malformed stream was rejected; distinct = distinct fingerprints of the scenario log" },
+];
+
 pub fn prop(id: &str) -> Option<&'static PropInfo> {
-    PROPS.iter().chain(CRASH_PROPS.iter()).chain(STORE_PROPS.iter()).find(|p| p.id == id)
+    PROPS.iter().chain(CRASH_PROPS.iter()).chain(STORE_PROPS.iter()).chain(WIRE_PROPS.iter()).find(|p| p.id == id)
 }
 
 /// Swarm: every run of a property draws its own workload mix.
